@@ -3,7 +3,7 @@
 root=${1:-/tmp/wt2}
 out=${2:-/tmp/r2/csweep}
 mkdir -p $out
-ls $root/*/_seeded/change*.diff 2>/dev/null | xargs -P 10 -I{} bash -c 'd={}; p=$(basename $(dirname $(dirname $d))); k=$(basename $d .diff); CUT=200 /verif/tools/try_diff.sh $d > '$out'/$p.$k.txt 2>&1'
+ls $root/*/_seeded/change*.diff 2>/dev/null | xargs -P 10 -I{} bash -c 'd={}; p=$(basename $(dirname $(dirname $d))); k=$(basename $d .diff); CUT=200 '$(dirname $0)'/try_diff.sh $d > '$out'/$p.$k.txt 2>&1'
 for f in $out/*.txt; do
   n=$(basename $f .txt); p=${n%%.*}
   own=$(grep -c "^VIOLATION property=$p " $f)
